@@ -118,6 +118,15 @@ class Fn:
                 return f"(- {a})", "Z"
             raise Unsupported("unary minus on a non-integer")
         if isinstance(e, ast.Compare):
+            if len(e.ops) == 2:
+                # a < b < c  ==  a < b and b < c   (b is a variable here: evaluated once either way)
+                if not isinstance(e.comparators[0], ast.Name):
+                    raise Unsupported("chained comparison around a non-variable")
+                x = ast.Compare(left=e.left, ops=[e.ops[0]], comparators=[e.comparators[0]])
+                y = ast.Compare(left=e.comparators[0], ops=[e.ops[1]], comparators=[e.comparators[1]])
+                a, _ = self.expr(x, env)
+                b, _ = self.expr(y, env)
+                return f"({a} && {b})", "bool"
             if len(e.ops) != 1:
                 raise Unsupported("chained comparison")
             op, r = e.ops[0], e.comparators[0]
@@ -131,6 +140,11 @@ class Fn:
                 return (none if isinstance(op, ast.Is) else f"(negb {none})"), "bool"
             a, ta = self.expr(e.left, env)
             b, tb = self.expr(r, env)
+            if {ta, tb} <= {"Z", "float"} and "float" in (ta, tb):
+                fn = {ast.Lt: "f_lt", ast.LtE: "f_le", ast.Gt: "f_gt", ast.GtE: "f_ge", ast.Eq: "f_eq", ast.NotEq: "f_ne"}.get(type(op))
+                fa = a if ta == "float" else ("zero" if a == "(0)%Z" else f"(f_of_Z {a})")
+                fb = b if tb == "float" else ("zero" if b == "(0)%Z" else f"(f_of_Z {b})")
+                return f"({fn} {fa} {fb})", "bool"
             if ta == "Z" and tb == "Z":
                 sym = {ast.Lt: "<?", ast.LtE: "<=?", ast.Gt: ">?", ast.GtE: ">=?", ast.Eq: "=?"}.get(type(op))
                 if sym:
@@ -213,6 +227,10 @@ class Fn:
                 if ta == tb == "Z":
                     return f"(Z.{fn} {a} {b})", "Z"
                 raise Unsupported(f"{fn} on {ta}, {tb}")
+            if fn is None and ast.unparse(e.func) in self.table and not e.keywords:
+                name, attrs, rty = self.table[ast.unparse(e.func)]
+                args = [self.expr_of_chain(at, env)[0] for at in attrs]
+                return f"({name} {' '.join(args)})", rty
             if fn in self.table and not e.keywords:
                 name, attrs, rty = self.table[fn]
                 base = fn.rsplit(".", 1)[0]
@@ -277,6 +295,12 @@ class Fn:
             return nxt(env)
         if isinstance(s, ast.Expr) and isinstance(s.value, ast.Call) and self.chain(s.value.func) in ("warnings.warn", "warnings.simplefilter"):
             return nxt(env)
+        if isinstance(s, ast.Expr) and isinstance(s.value, ast.Call) and ast.unparse(s.value.func) in self.table:
+            a, ta = self.expr(s.value, env)
+            if ta != "res unit" or not self.spec["ret"].startswith("res "):
+                raise Unsupported("statement-level call of a function that returns a value")
+            er = self.var("err")
+            return f"match {a} with\n  | Err {er} => Err {er}\n  | Ok _ =>\n  {nxt(env)}\n  end"
         if isinstance(s, ast.Assert):
             self.notes.append("precondition (assert): " + ast.unparse(s.test))
             return nxt(env)
@@ -323,6 +347,10 @@ class Fn:
             if ta == "str":
                 return nxt(env)  # messages do not influence the value
             x = s.targets[0].id
+            if ta in ("arr", "boolarr"):
+                env2 = dict(env)
+                env2[x] = (a, ta)
+                return nxt(env2)
             env2 = dict(env)
             env2[x] = (x, ta)
             return f"let {x} := {a} in\n  {nxt(env2)}"
@@ -473,6 +501,7 @@ def main(repo: Path, out: Path):
         "Definition gen_py_int (x : float) : Z := match f_trunc x with Some z => z | None => 0 end.\n\n" + "\n".join(defs)
     )
     main_loops(repo, out)
+    main_arrays(repo, out)
 
 
 class TruthyFn(Fn):
@@ -722,6 +751,131 @@ class LoopFn(Fn):
     def definition(self):
         d = super().definition()
         return "\n".join(self.aux) + ("\n" if self.aux else "") + d
+
+
+class ArrFn(Fn):
+    """adds numpy reductions over sample arrays, read through the SUMMARY of the array the sequence
+    model is given (maximum, minimum, maximum of the absolute value, average; for detuning-map
+    weights: maximum and sum).  Rules (each an identity for arrays without NaN):
+      np.any(X > c) = (max X > c)      np.any(X < c) = (min X < c)
+      max/min (f(X)) = f (max/min X)   for the non-decreasing f = round(., 6)
+      max (|X|) = max-abs X
+    A reduction the summary does not determine raises (fail-closed)."""
+
+    def isinst_true(self, e, env):
+        return isinstance(e, ast.Call) and isinstance(e.func, ast.Name) and e.func.id == "isinstance" and ast.unparse(e.args[0]) in self.spec.get("objects", [])
+
+    def expr(self, e, env):
+        txt = ast.unparse(e)
+        if txt in env:
+            return env[txt]
+        if self.isinst_true(e, env):
+            return "true", "bool"  # the model's domain: the argument is a Pulse
+        if isinstance(e, ast.Call):
+            f = ast.unparse(e.func)
+            if isinstance(e.func, ast.Attribute) and e.func.attr == "as_array":
+                return self.expr(e.func.value, env)
+            if f == "np.abs" and len(e.args) == 1:
+                a, ta = self.expr(e.args[0], env)
+                if ta != "arr" or "absmax" not in a:
+                    raise Unsupported("np.abs of something whose largest absolute value is not in the summary")
+                return {"max": a["absmax"], "absmax": a["absmax"]}, "arr"
+            if f in ("np.round", "pm.round"):
+                dec = None
+                if len(e.args) == 2 and isinstance(e.args[1], ast.Constant):
+                    dec = e.args[1].value
+                for k in e.keywords:
+                    if k.arg == "decimals" and isinstance(k.value, ast.Constant):
+                        dec = k.value.value
+                if dec != 6:
+                    raise Unsupported("rounding to other than 6 decimals")
+                a, ta = self.expr(e.args[0], env)
+                if ta != "arr":
+                    raise Unsupported("round of a non-array")
+                return {k: f"(f_round6 {v})" for k, v in a.items() if k in ("max", "min", "absmax")}, "arr"
+            if f == "np.any" and len(e.args) == 1:
+                a, ta = self.expr(e.args[0], env)
+                if ta != "boolarr":
+                    raise Unsupported("np.any of something other than a comparison of an array")
+                return a, "bool"
+            if f in ("np.min", "np.max", "np.average", "np.sum") and len(e.args) == 1:
+                a, ta = self.expr(e.args[0], env)
+                k = {"np.min": "min", "np.max": "max", "np.average": "avg", "np.sum": "sum"}[f]
+                if ta != "arr" or k not in a:
+                    raise Unsupported(f"{f} of something whose {k} is not in the summary")
+                return a[k], "float"
+        if isinstance(e, ast.Compare) and len(e.ops) == 1:
+            a, ta = self.expr(e.left, env)
+            if ta == "arr":
+                b, tb = self.expr(e.comparators[0], env)
+                if tb == "Z":
+                    b, tb = ("zero" if b == "(0)%Z" else f"(f_of_Z {b})"), "float"
+                if tb != "float":
+                    raise Unsupported("array compared with a non-scalar")
+                if isinstance(e.ops[0], ast.Gt) and "max" in a:
+                    return f"(f_gt {a['max']} {b})", "boolarr"
+                if isinstance(e.ops[0], ast.Lt) and "min" in a:
+                    return f"(f_lt {a['min']} {b})", "boolarr"
+                raise Unsupported("array comparison the summary does not determine")
+        return super().expr(e, env)
+
+    def definition(self):
+        sp = self.spec
+        env = {}
+        for py, (cq, ty) in sp["params"].items():
+            env[py] = (cq, ty)
+        for py, summ in sp.get("arrays", {}).items():
+            env[py] = (dict(summ), "arr")
+        seen = []
+        for py, (cq, ty) in sp["params"].items():
+            if cq not in [c for c, _ in seen]:
+                seen.append((cq, ty))
+        for py, summ in sp.get("arrays", {}).items():
+            for v in summ.values():
+                if v not in [c for c, _ in seen]:
+                    seen.append((v, "float"))
+        body = self.block(self.node.body, env)
+        ps = " ".join(f"({c} : {COQTY[t]})" for c, t in seen)
+        notes = "".join(f"(* {n} *)\n" for n in dict.fromkeys(self.notes))
+        return f"(** {sp['file']} : {sp['qual']} *)\n{notes}Definition {sp['coq']} {ps} : {sp['ret']} :=\n  {body}.\n"
+
+
+ARR_SPECS = [
+    dict(file="pulser-core/pulser/channels/base_channel.py", qual="Channel.validate_pulse", coq="gen_validate_pulse", ret="res unit",
+         objects=["pulse"],
+         params={"self.max_amp": ("max_amp", "optfloat"), "self.max_abs_detuning": ("max_abs_detuning", "optfloat"),
+                 "self.min_avg_amp": ("min_avg_amp", "float")},
+         arrays={"pulse.amplitude.samples": {"max": "amp_max", "avg": "amp_avg"},
+                 "pulse.detuning.samples": {"absmax": "det_absmax"}}),
+    dict(file="pulser-core/pulser/channels/dmm.py", qual="DMM.validate_pulse", coq="gen_validate_pulse_dmm", ret="res unit",
+         objects=["pulse"],
+         params={"self.max_amp": ("max_amp", "optfloat"), "self.max_abs_detuning": ("max_abs_detuning", "optfloat"),
+                 "self.min_avg_amp": ("min_avg_amp", "float"), "amp_max": ("amp_max", "float"), "amp_avg": ("amp_avg", "float"),
+                 "det_absmax": ("det_absmax", "float"),
+                 "self.bottom_detuning": ("bottom_detuning", "optfloat"), "self.total_bottom_detuning": ("total_bottom_detuning", "optfloat")},
+         arrays={"pulse.detuning.samples": {"max": "det_max", "min": "det_min"},
+                 "detuning_map.weights": {"max": "w_max", "sum": "w_sum"}},
+         calls={"super().validate_pulse": ("gen_validate_pulse", ["self.max_amp", "self.max_abs_detuning", "self.min_avg_amp", "amp_max", "amp_avg", "det_absmax"], "res unit")}),
+]
+
+
+def main_arrays(repo: Path, out: Path):
+    trees = {}
+    defs = []
+    for sp in ARR_SPECS:
+        p = repo / sp["file"]
+        tree = trees.setdefault(str(p), ast.parse(p.read_text()))
+        node = find(tree, sp["qual"])
+        fn = ArrFn(sp, node, {}, sp.get("calls", {}))
+        try:
+            defs.append(fn.definition())
+        except Unsupported as e:
+            raise ValueError(f"translator cannot express {sp['qual']} ({sp['file']}): {e}") from e
+    (out / "PureLimits.v").write_text(
+        "(** GENERATED by translate/tr_pure.py from Channel.validate_pulse / DMM.validate_pulse - do not edit.\n"
+        "    numpy reductions are read through the sample summary the model is given (see translate/tr_pure.py, ArrFn). *)\n"
+        "From Coq Require Import ZArith Bool.\nFrom Coq Require Import PrimFloat.\nFrom PV Require Import Model.Base.\nOpen Scope Z_scope.\n\n" + "\n".join(defs)
+    )
 
 
 LOOP_SPECS = [
